@@ -243,6 +243,11 @@ def generate(repo, emit, src, func_body):
         and re.search(r'gc->nitems--;\s*dealloc\(destruct\(freeitem\)\);\s*return;', b) \
         and re.search(r'if\s*\(\s*h\s+is\s+0\s+or\s+j\s*>\s*GC_Probe\(gc,\s*i,\s*h\)\s*\)\s*\{\s*return;\s*\}', b)
     emit('hdr_rem_releases', 'Definition hdr_rem_releases : bool := true.' if okr else None)
+    # del while the collector is stopped: GC_Rem returns at once (the deletion is deferred: finding F2 of C06), and
+    # del_by hands del / del_root to rem(current(GC), .) whether or not the collector is running (hdr_del_by_gc)
+    b = func_body(g, r'static\s+void\s+GC_Rem\s*\(\s*var\s+self\s*,\s*var\s+key\s*\)\s*\{')
+    emit('hdr_rem_deferred_when_stopped', 'Definition hdr_rem_deferred_when_stopped : bool := true.'
+         if b and re.search(r'struct GC\*\s*gc\s*=\s*self;\s*if\s*\(\s*not\s+gc->running\s*\)\s*\{\s*return;\s*\}\s*GC_Rem_Ptr\(gc,\s*key\);', b) else None)
 
     # ---------------------------------------------------------------- storage layout (size(type) bytes usable)
     def shape(name, ok):
